@@ -134,6 +134,7 @@ type World struct {
 	heldReaders  []heldReader // open GetReader results that are read some steps later
 	bulkBytes    map[int]int  // per transaction: bytes of key names written by txburst steps
 	commitTooBig bool         // the last Commit failed because the transaction exceeds Badger's transaction size
+	prevMu       sync.Mutex   // doWrite is called from several goroutines by the race engine
 	prevFile     fs_db.File   // the last created file whose Close succeeded (closed once more during a later Create)
 }
 
@@ -304,7 +305,9 @@ func (w *World) closeDB() {
 
 // Reopen closes and opens the database again (model: open transactions vanish).
 func (w *World) Reopen() error {
+	w.prevMu.Lock()
 	w.prevFile = nil // handles of the old incarnation are not used again
+	w.prevMu.Unlock()
 	if w.Case.External {
 		// the server goes away: readers it is still streaming to are read out first, and the handles
 		// of the client that was connected to it are not used again (a new client connects afterwards)
@@ -601,6 +604,18 @@ func (w *World) source(b []byte, op Op) io.Reader {
 	return &chunkReader{b: own, split: op.Split, eofWithData: len(b)%2 == 1}
 }
 
+// takePrevFile hands out the remembered closed file for every other write (nil otherwise).
+func (w *World) takePrevFile(n int) fs_db.File {
+	w.prevMu.Lock()
+	defer w.prevMu.Unlock()
+	pf := w.prevFile
+	if pf == nil || (w.step+n)%2 != 0 {
+		return nil
+	}
+	w.prevFile = nil
+	return pf
+}
+
 // doWrite performs a content write through the chosen path.
 func (w *World) doWrite(s fs_db.Store, key string, b []byte, op Op) error {
 	switch op.Via {
@@ -616,12 +631,10 @@ func (w *World) doWrite(s fs_db.Store, key string, b []byte, op Op) error {
 		if err != nil {
 			return err
 		}
-		if pf := w.prevFile; pf != nil && (w.step+len(b))%2 == 0 {
+		if pf := w.takePrevFile(len(b)); pf != nil {
 			// the habit "explicit Close, and a deferred Close that runs later": a handle that was closed
 			// successfully is closed a second time while a file created after it is still open and unwritten.
 			// The second Close must return and must not touch anything but its own (finished) file.
-			w.prevFile = nil
-			w.Stats["create_late_second_close"]++
 			done := make(chan struct{})
 			go func() { _ = pf.Close(); close(done) }()
 			select {
@@ -702,7 +715,9 @@ func (w *World) doWrite(s fs_db.Store, key string, b []byte, op Op) error {
 			return werr
 		}
 		if cerr == nil {
+			w.prevMu.Lock()
 			w.prevFile = f
+			w.prevMu.Unlock()
 		}
 		return cerr
 	default:
